@@ -245,6 +245,48 @@ def memo_obligations(P, G):
     return obs
 
 
+THREAD_SINKS = ("set_num_threads", "get_fft_manager")
+
+
+def thread_flow_obligations(P, G):
+    """the configured thread count may only be compared (selecting thread set-up / a compilation
+    of the same kernel) or handed to the thread-setting calls; it must never become a value"""
+    obs = []
+    for key in G.order:
+        mod, fn, encl = G.nodes[key]
+        parents = {}
+        for n in ast.walk(fn):
+            for ch in ast.iter_child_nodes(n):
+                parents[ch] = n
+        for n in ast.walk(fn):
+            if not (isinstance(n, ast.Attribute) and n.attr == "NUM_THREADS" and isinstance(n.ctx, ast.Load)):
+                continue
+            dn = dotted_name(n) or ""
+            head = dn.split(".")[0]
+            tgt = mod.local_imports(fn).get(head) or mod.imports.get(head)
+            if tgt != "bldfm.config":
+                continue
+            p = parents.get(n)
+            ok = False
+            how = type(p).__name__
+            if isinstance(p, ast.Compare):
+                ok, how = True, "compared"
+            elif isinstance(p, ast.Call) and (dotted_name(p.func) or "").split(".")[-1] in THREAD_SINKS:
+                ok, how = True, "argument of %s" % dotted_name(p.func)
+            elif isinstance(p, ast.keyword):
+                pc = parents.get(p)
+                if isinstance(pc, ast.Call) and (dotted_name(pc.func) or "").split(".")[-1] in THREAD_SINKS:
+                    ok, how = True, "argument of %s" % dotted_name(pc.func)
+                else:
+                    how = "keyword argument of %s" % (dotted_name(pc.func) if isinstance(pc, ast.Call) else "?")
+            elif isinstance(p, ast.Call):
+                how = "argument of %s" % (dotted_name(p.func) or "a call")
+            obs.append(req_ob("R-PURE", "src/%s.py::%s" % (mod.name.replace(".", "/"), fn.name),
+                              "the configured thread count is only compared or handed to the thread-setting calls (never used as a value)", ok,
+                              detail=None if ok else "config.NUM_THREADS is used as %s (line %d)" % (how, n.lineno), key={"use": how}))
+    return obs
+
+
 def fft_wrapper_obligations(P):
     obs = []
     m = P.module("bldfm.fft_manager")
@@ -348,10 +390,11 @@ def check_C12(P, tier):
     R.add(memo)
     # module-level containers written on the path but never keyed (plain global lists etc.) are caught by R-STATE; keyed ones by R-MEMO
     R.add(fft_wrapper_obligations(P))
+    R.add(thread_flow_obligations(P, G))
     try:
         o, SA = purity_runs(P)
         R.add(o)
-    except AnalysisError as e:
+    except (AnalysisError, TypeError, AttributeError, KeyError, ValueError, IndexError) as e:
         SA = RS.SolverAnalysis(P)
         R.add(req_ob("R-PURE", "src/bldfm/solver.py::steady_state_transport_solver", "the solver can be interpreted abstractly for the thread/precision comparison", None, detail=str(e)))
     # the decorator forwards its arguments unchanged
